@@ -407,6 +407,7 @@ let () =
        | ["trace"; "on"] -> tracing := true
        | ["dls"; v] -> dls_on := (v = "on")
        | ["errnul"; _] | ["track"; _] -> ()
+       | "faultspec" :: _ -> ()
        | ["stall"; _] -> ()
        | t :: "op" :: rest when Stdlib.String.length t = 2 && t.[0] = 't' ->
            let i = Char.code t.[1] - 48 in
